@@ -529,7 +529,15 @@ namespace ip {
 				p.overhead = 40;
 				p.hops = hops;
 				p.seq_nr = m_next_outgoing_seq++;
-				p.drop_fun = std::bind(&tcp::socket::packet_dropped, this, _1);
+				// the notification is delivered through the forwarder, which
+				// is detached when this socket is closed or destroyed and
+				// re-pointed when it is moved
+				std::shared_ptr<aux::sink_forwarder> fwd = m_forwarder;
+				p.drop_fun = [fwd](aux::packet pkt)
+				{
+					if (sink* s = fwd->destination())
+						static_cast<tcp::socket*>(s)->packet_dropped(std::move(pkt));
+				};
 
 				send_packet(std::move(p));
 				ptr += packet_size;
